@@ -19,6 +19,7 @@ From CF Require Import C16.Proofs.
 From CF Require Import C16.Proofs_unique.
 From CF Require Import C16.Heap.
 From CF Require Import C16.Heap_proofs.
+From CF Require Import C16.Proofs_chain.
 Import ListNotations.
 Open Scope R_scope.
 
@@ -179,3 +180,29 @@ Theorem C16_scale_shared_references : forall (A : Type) (mul : A -> A) (h h' : h
        option_map snd (deref h' ci) = option_map snd (deref h' cj) \/ deref h oi = None \/ deref h oj = None).
 Proof. exact scale_system_h_shared. Qed.
 Print Assumptions C16_scale_shared_references.
+
+(* Histories on the same poses (Wave 12).  A Pose is a value (R, t) and align's loop, _scale_system and composition are
+   functions of the current values, so align -> scale -> align (and scale -> align -> scale) on the outputs of the
+   previous step is the composition of the value-level functions, entry by entry; with rigid transformations every
+   distance of the final result is |s| times the corresponding input distance. *)
+Theorem C16_chain_is_value_level : forall T1 T2 s s2 bs cf,
+  chain_asa T1 T2 s bs cf = map (fun kv => (fst kv, rtp Rops T2 (pscale Rops (rtp Rops T1 (snd kv)) s))) bs /\
+  chain_sas T1 s s2 bs cf = map (fun kv => (fst kv, pscale Rops (rtp Rops T1 (pscale Rops (snd kv) s)) s2)) bs /\
+  (orthogonal (rot T1) -> orthogonal (rot T2) -> forall P Q,
+     dist (trans (rtp Rops T2 (pscale Rops (rtp Rops T1 P) s))) (trans (rtp Rops T2 (pscale Rops (rtp Rops T1 Q) s))) =
+     Rabs s * dist (trans P) (trans Q)).
+Proof.
+  intros. split; [apply chain_asa_value_level|]. split; [apply chain_sas_value_level|].
+  intros H1 H2 P Q. apply chain_asa_distances; assumption.
+Qed.
+Print Assumptions C16_chain_is_value_level.
+
+(* A pose object that carries a cached composite which composition reads and pre-populates but scaling does not
+   invalidate (and the shallow copy carries along) does NOT have this property: compose -> scale -> compose moves the
+   unscaled pose, although every single step on fresh poses is exact. *)
+Theorem C16_cached_matrix_variant_refuted :
+  (exists T P s, cval (c_compose (c_fresh T) (c_scale (c_compose (c_fresh T) (c_fresh P)) s)) <>
+                 rtp Rops T (pscale Rops (rtp Rops T P) s)) /\
+  (forall T P s, cval (c_compose (c_fresh T) (c_fresh P)) = rtp Rops T P /\ cval (c_scale (c_fresh P) s) = pscale Rops P s).
+Proof. exact (conj cached_variant_refuted cached_variant_single_steps_exact). Qed.
+Print Assumptions C16_cached_matrix_variant_refuted.
